@@ -174,7 +174,9 @@ def cube_ops(c, rng, case):
         prop = isinstance(c.uncertainty, StdDevUncertainty)
         has_nan = bool(np.isnan(np.asarray(C.materialize(c.data), dtype=float)).any())
         oper = rng.choice([np.nansum, np.nanmean] if has_nan else [np.mean, np.sum, np.nansum, np.nanmean])
-        rebin_op = ("rebin", "rebin", lambda: c.rebin(bins, operation=oper, propagate_uncertainties=prop))
+        # the propagation operation left to be inferred, or named explicitly (documented keyword, forwarded by rebin)
+        pkw = {"propagation_operation": np.add} if (prop and rng.random() < 0.4) else {}
+        rebin_op = ("rebin", "rebin", lambda: c.rebin(bins, operation=oper, propagate_uncertainties=prop, **pkw))
         # in-place bookkeeping of the uncertainty propagation is where rebin could reach its source:
         # give that combination more weight
         nothing_masked = c.mask is not None and not isinstance(c.mask, bool) and not np.asarray(c.mask).any()
